@@ -19,7 +19,22 @@ Token level, programs of any size (the models are `QV.Shared.Print`, `QV.Shared.
 * `C04_debug_total`: the debug serializer is a total function (by construction of the model: `write(f, true)`
   never takes an error branch) and AGREES with the strict serializer whenever that succeeds.
 
-## Proved for the kinds of `apiKind` (34 kinds) — `C04_roundtrip_api`, see below
+* `C04_serialize_succeeds`: a placeholder-free listing serializes — full strength, no other hypothesis.
+
+## Proved for ALL 40 kinds under explicit guards — `C04_roundtrip_api_partial` (round 4)
+
+For every list of instructions that are well-formed (`wellFormed`: the constructors' validation + identifier
+rules + finite numbers; it already says that bodies consist of non-definition instructions and excludes the known
+finding shapes), placeholder-free, satisfy `apiKind` (the one guard beyond `wellFormed`: a DEFWAVEFORM name has
+non-empty slash-free parts) and the NumTok hypothesis: the program serializes, and the
+tokens parse back to the listing with every expression replaced by its normal form (`normInstr`; waveform
+parameters sorted by key), expression values preserved (`C04_norm_value`).  The six definition kinds go through
+C02's `Lemmas{Defs,Cal,Cal2,Gate,Gate2,Lines}` in their `norm` forms.  `C04_roundtrip_build_partial` adds: if no
+DEFCAL has non-normal parameter expressions, re-adding the reparsed list gives a program whose `to_instructions`
+is exactly that list (no instruction merged or reordered).  The hypothesis is needed:
+`C04_counterexample_calibrationKeys` — the key of a calibration contains its parameter EXPRESSIONS, compared
+structurally, and `-1.0` (a literal) and `-(1.0)` (a prefix minus) print alike.  The theorems are named
+`…_partial` because of these guards; the full statement is below.
 
 ## Proved for the kinds of `plainKind` (23 kinds without expressions)
 
@@ -101,54 +116,89 @@ theorem C04_roundtrip_partial (F : NumFmt) (is : List Instruction)
     have := hk i hi
     cases i <;> simp_all [plainKind, canonInstr]
 
-/-- **C04, proved part with expressions.**  Well-formed, placeholder-free instructions of the kinds `apiKind`
-(the plain kinds, gate applications with arbitrary expression parameters and modifiers, SET-FREQUENCY, SET-PHASE,
-SET-SCALE, SHIFT-FREQUENCY, SHIFT-PHASE, DELAY with any duration with and without frame names, RAW-CAPTURE into
-a region not named `i`, CAPTURE and PULSE: their waveform parameters come back sorted by key, values in normal
-form — `normInvocation`; CALL with identifier, memory-reference and immediate arguments — negative, imaginary,
-complex, adjacent — read back bit for bit), NumTok hypothesis on their literals: the program serializes, and the
-tokens parse back to the listing in which every expression `e` is replaced by its normal form `norm e`
-(`normInstr`) — which builds the program whose containers are the images of the original containers.
-`norm e` has the same value as `e` under every assignment (`C04_norm_value`): the reparsed program is equal to
-the original with expressions compared by value. -/
-theorem C04_roundtrip_api (F : NumFmt) (is : List Instruction)
+/-- **serialization succeeds** for every placeholder-free listing (all kinds, nested bodies; full strength) -/
+theorem C04_serialize_succeeds (F : NumFmt) (L : List Instruction) (hp : hasPlaceholders L = false) :
+    ∃ ts, printProgramTokens F L = .ok ts := by
+  have := (firstErrList_none_iff L).mpr hp
+  exact ⟨collapseNL (programRaw F L), by simp [printProgramTokens, this]⟩
+
+/-- **C04 round trip, all 40 kinds, under explicit guards.**  Well-formed, placeholder-free instructions
+satisfying `apiKind` (for the 34 one-line kinds: as before; DEFWAVEFORM with a name of non-empty slash-free
+parts; DEFFRAME; DEFGATE with MATRIX / PERMUTATION / PAULI-SUM / SEQUENCE; DEFCAL, DEFCAL
+MEASURE, DEFCIRCUIT whose bodies — by `wellFormed` — consist of non-definition instructions), NumTok hypothesis on
+their literals: the program serializes, and the tokens parse back to the listing in which every expression `e`
+is replaced by its normal form `norm e` and waveform-invocation parameters are sorted by key (`normInstr`).
+`norm e` has the same value as `e` under every assignment (`C04_norm_value`): the reparsed instructions are equal
+to the original ones with expressions compared by value. -/
+theorem C04_roundtrip_api_partial (F : NumFmt) (is : List Instruction)
     (hw : ∀ i ∈ is, wellFormed i = true) (hp : ∀ i ∈ is, hasPlaceholder i = false)
     (hk : ∀ i ∈ is, apiKind i = true) (hn : ∀ i ∈ is, numTokInstr F i = true) :
     ∃ ts, printProgramTokens F (build is).listing = .ok ts ∧
-      parseProgram ts = .ok ((build is).listing.map normInstr) [] ∧
-      build ((build is).listing.map normInstr) = mapProg normInstr (build is) ∧
-      (build ((build is).listing.map normInstr)).listing = (build is).listing.map normInstr := by
+      parseProgram ts = .ok ((build is).listing.map normInstr) [] := by
   have hL : ∀ i ∈ (build is).listing, i ∈ is := fun i hi => mem_listing_build hi
   have herr : firstErrList (build is).listing = none :=
     (firstErrList_none_iff _).mpr (hasPlaceholders_false _ (fun i hi => hp i (hL i hi)))
-  have hblock : ∀ i ∈ (build is).listing, blockOk (toks F i) = true := by
-    intro i hi
-    exact blockOk_of_lineKind F i (apiKind_provedKind (hk i (hL i hi))) (hn i (hL i hi))
-  have hcollapse : collapseNL (programRaw F (build is).listing) = programRaw F (build is).listing :=
-    collapseNL_of_noAdj _ (noAdjNL_programRaw F _ hblock).1
-  have hprint : printProgramTokens F (build is).listing = .ok (programRaw F (build is).listing) := by
+  have hpk : ∀ i ∈ (build is).listing, provedKind i = true :=
+    fun i hi => provedKind_of_api i (hw i (hL i hi)) (hp i (hL i hi)) (hk i (hL i hi))
+  have hsh : ∀ i ∈ (build is).listing, shapeOk F i = true :=
+    fun i hi => shapeOk_of_api F i (hw i (hL i hi)) (hp i (hL i hi)) (hk i (hL i hi))
+  have hblock : ∀ i ∈ (build is).listing, blockOk (stripNL (toks F i)) = true :=
+    fun i hi => blockOk_lineToks' F i (hsh i hi) (hpk i hi) (hn i (hL i hi))
+  have hcollapse : collapseNL (programRaw F (build is).listing) = progOf (lineToks F) (build is).listing :=
+    (collapse_progOf (toks F) _ hblock).1
+  have hprint : printProgramTokens F (build is).listing = .ok (progOf (lineToks F) (build is).listing) := by
     simp [printProgramTokens, herr, hcollapse]
-  have hbuild : build ((build is).listing.map normInstr) = mapProg normInstr (build is) := by
-    rw [build_map normInstr slotOf_normInstr, build_listing_build]
-  refine ⟨_, hprint, ?_, hbuild, ?_⟩
-  · exact parseProgram_programRaw F normInstr (build is).listing
-      (fun i hi => (rt_of_apiKind F _ i (hw i (hL i hi)) (hp i (hL i hi)) (hk i (hL i hi)) (hn i (hL i hi))
-        (length_toks_le_programRaw F _ i hi)).top)
-  · rw [hbuild, listing_mapProg]
+  refine ⟨_, hprint, ?_⟩
+  exact parseProgram_progOf (lineToks F) normInstr (build is).listing
+    (fun i hi => lineToks_head' F i (hsh i hi) (hpk i hi) (hn i (hL i hi)))
+    (fun i hi => rt_of_apiKind F _ i (hw i (hL i hi)) (hp i (hL i hi)) (hk i (hL i hi)) (hn i (hL i hi))
+      (length_e_le_progOf (lineToks F) _ i hi))
 
-/-- **C04 at TEXT level, for the canonical layout**: under the hypotheses of `C04_roundtrip_api`, if the printed
-tokens are spellable (`QV.Render.allTokOk`, decidable) and the float spelling satisfies the NumTok hypothesis
-`FmtOk`, the text `render st ts` (bP1's canonical layout of the printed tokens) lexes — with the character-level
-lexer model — to exactly the printed tokens, which parse back to the normal-form listing. -/
-theorem C04_roundtrip_api_text (st : QV.Render.Style) (F : NumFmt) (is : List Instruction)
+/-- the reparsed list builds a program whose `to_instructions` is that list — nothing merged, nothing reordered —
+provided no DEFCAL has parameter expressions that normalisation changes (the key of a calibration contains its
+parameter expressions; see `C04_counterexample_calibrationKeys`) -/
+theorem C04_roundtrip_build_partial (is : List Instruction)
+    (hkey : ∀ id body, Instruction.calibrationDefinition id body ∈ is → id.parameters.map norm = id.parameters) :
+    (build ((build is).listing.map normInstr)).listing = (build is).listing.map normInstr := by
+  let f : Instruction → Instruction := fun i => if slotOf (normInstr i) = slotOf i then normInstr i else i
+  have hf : ∀ i, slotOf (f i) = slotOf i := by
+    intro i
+    by_cases h : slotOf (normInstr i) = slotOf i <;> simp [f, h]
+  have hL : ∀ i ∈ (build is).listing, i ∈ is := fun i hi => mem_listing_build hi
+  have hmap : (build is).listing.map normInstr = (build is).listing.map f := by
+    apply List.map_congr_left
+    intro i hi
+    have := slotOf_normInstr i (fun id body e => hkey id body (e ▸ hL i hi))
+    simp [f, this]
+  rw [hmap, build_map f hf, build_listing_build, listing_mapProg]
+
+/-- **C04 at TEXT level, for the canonical layout**: under the hypotheses of `C04_roundtrip_api_partial`, if the
+printed tokens are spellable (`QV.Render.allTokOk`, decidable) and the float spelling satisfies the NumTok
+hypothesis `FmtOk`, the text `render st ts` (bP1's canonical layout of the printed tokens) lexes — with the
+character-level lexer model — to exactly the printed tokens, which parse back to the normal-form listing. -/
+theorem C04_roundtrip_api_text_partial (st : QV.Render.Style) (F : NumFmt) (is : List Instruction)
     (hw : ∀ i ∈ is, wellFormed i = true) (hp : ∀ i ∈ is, hasPlaceholder i = false)
     (hk : ∀ i ∈ is, apiKind i = true) (hn : ∀ i ∈ is, numTokInstr F i = true) :
     ∃ ts, printProgramTokens F (build is).listing = .ok ts ∧
       (QV.Render.allTokOk ts = true → (∀ b, Token.float b ∈ ts → QV.Render.FmtOk st.fmt b) →
         QV.Lex.lex (QV.Render.render st ts) = some ts ∧
         parseProgram ts = .ok ((build is).listing.map normInstr) []) := by
-  obtain ⟨ts, h1, h2, _⟩ := C04_roundtrip_api F is hw hp hk hn
+  obtain ⟨ts, h1, h2⟩ := C04_roundtrip_api_partial F is hw hp hk hn
   exact ⟨ts, h1, fun hall hfl => ⟨QV.Render.lex_render st ts hall hfl, h2⟩⟩
+
+/-- two calibrations that the API keeps apart — `DEFCAL X(-1.0) 0` with the literal `-1.0` and with the prefix
+minus `-(1.0)`: their keys differ structurally — print to the same line; the reparsed list therefore builds a
+program with ONE calibration.  (An instance of the non-injectivity of the expression printer, C03.) -/
+def calibrationKeysWitness : List Instruction :=
+  [.calibrationDefinition ⟨[], "X", [.number ⟨0xBFF0000000000000, 0⟩], [.fixed 0]⟩ [.nop],
+   .calibrationDefinition ⟨[], "X", [.pre .minus (.number ⟨0x3FF0000000000000, 0⟩)], [.fixed 0]⟩ [.wait]]
+
+theorem C04_counterexample_calibrationKeys :
+    (∀ i ∈ calibrationKeysWitness, wellFormed i = true ∧ hasPlaceholder i = false ∧ apiKind i = true ∧
+      numTokInstr stdFmt i = true) ∧
+    (build calibrationKeysWitness).listing.length = 2 ∧
+    (build ((build calibrationKeysWitness).listing.map normInstr)).listing.length = 1 := by
+  decide
 
 /-- the normal form the parser returns has the same value as the original expression, for every scalar type
 satisfying the literal laws and every assignment (proved by the C03 builder: `QV.ExprRoundTrip.eval_norm`) -/
@@ -157,7 +207,7 @@ theorem C04_norm_value {K : Type} [Scalar K] (den : CBits → K) (L : QV.ExprRou
     QV.ExprRoundTrip.evalP den ρ μ (norm e) = QV.ExprRoundTrip.evalP den ρ μ e :=
   QV.ExprRoundTrip.eval_norm L ρ μ e h
 
-/-- non-vacuity of `C04_roundtrip_api`: `DAGGER RX(-(-pi), -1.5, 1-2i) 0 q` and a frame instruction -/
+/-- non-vacuity of `C04_roundtrip_api_partial` (one-line kinds): `DAGGER RX(-(-pi), -1.5, 1-2i) 0 q` and a frame instruction -/
 example : ∃ ts, printProgramTokens stdFmt (build
       [.gate ⟨"RX", [.pre .minus (.pre .minus .pi), .number ⟨0xBFF8000000000000, 0⟩,
           .number ⟨0x3FF0000000000000, 0xC000000000000000⟩], [.fixed 0, .variable "q"], [.dagger]⟩,
@@ -171,7 +221,7 @@ example : ∃ ts, printProgramTokens stdFmt (build
        .call ⟨"foo", [.immediate ⟨0x3FF0000000000000, 0⟩, .immediate ⟨0, 0xC000000000000000⟩,
           .immediate ⟨0xBFF0000000000000, 0x4000000000000000⟩, .identifier "x", .memoryReference ⟨"i", 0⟩]⟩]).listing
       = .ok ts :=
-  let ⟨ts, h, _⟩ := C04_roundtrip_api stdFmt _ (by decide) (by decide) (by decide) (by decide)
+  let ⟨ts, h, _⟩ := C04_roundtrip_api_partial stdFmt _ (by decide) (by decide) (by decide) (by decide)
   ⟨ts, h⟩
 
 /-- non-vacuity: instructions as the constructors build them (negative / extreme literals, a named measurement,
@@ -185,5 +235,34 @@ example : ∃ ts, printProgramTokens stdFmt (build
        .measurement ⟨some "mid", .variable "q", some ⟨"ro", 1⟩⟩]).listing = .ok ts :=
   let ⟨ts, h, _⟩ := C04_roundtrip_partial stdFmt _ (by decide) (by decide) (by decide)
   ⟨ts, h⟩
+
+/-- non-vacuity of `C04_roundtrip_api_partial` for the six definition kinds, with NON-normal expressions
+(negative and complex literals, prefix plus) in every expression position: DEFWAVEFORM, DEFFRAME, DEFCAL with a
+negative-literal parameter and a body containing a gate with a negative parameter, DEFCAL MEASURE, DEFCIRCUIT, and
+DEFGATE AS MATRIX / PERMUTATION / PAULI-SUM / SEQUENCE -/
+example : ∃ ts, printProgramTokens stdFmt (build
+      [.waveformDefinition ⟨"lib/wf", ⟨[.number ⟨0xBFF0000000000000, 0⟩, .pre .plus (.var "t"),
+          .number ⟨0x3FF0000000000000, 0xC000000000000000⟩], ["t"]⟩⟩,
+       .frameDefinition ⟨⟨"xy", [.fixed 0, .variable "q"]⟩,
+         [("DIRECTION", .string "tx"), ("INITIAL-FREQUENCY", .expression (.number ⟨0xBFF8000000000000, 0⟩))]⟩,
+       .calibrationDefinition ⟨[.dagger], "RX", [.number ⟨0xBFF0000000000000, 0⟩, .var "a"], [.fixed 0]⟩
+         [.gate ⟨"RZ", [.number ⟨0xBFF8000000000000, 0⟩], [.fixed 0], []⟩,
+          .delay ⟨.number ⟨0xBFF0000000000000, 0⟩, [], [.fixed 0]⟩, .nop],
+       .measureCalibrationDefinition ⟨some "mid", .variable "q", some "dest"⟩
+         [.shiftPhase ⟨⟨"ro", [.variable "q"]⟩, .pre .plus .pi⟩, .wait],
+       .circuitDefinition "BELL" ["a"] ["q", "r"]
+         [.gate ⟨"RX", [.pre .minus (.pre .minus (.var "a"))], [.variable "q"], []⟩,
+          .gate ⟨"CNOT", [], [.variable "q", .variable "r"], [.controlled]⟩],
+       .gateDefinition ⟨"M", ["t"], .matrix [[.number ⟨0xBFF0000000000000, 0⟩, .pi],
+          [.pre .plus (.var "t"), .number ⟨0, 0x3FF0000000000000⟩]]⟩,
+       .gateDefinition ⟨"P", [], .permutation [0, 1, 3, 2]⟩,
+       .gateDefinition ⟨"S", ["t"], .pauliSum ⟨["p", "q"],
+          [⟨[(.x, "p"), (.z, "q")], .number ⟨0xBFF0000000000000, 0⟩⟩, ⟨[(.y, "q")], .var "t"⟩]⟩⟩,
+       .gateDefinition ⟨"Q", ["t"], .sequence ⟨["a", "b"],
+          [⟨"RX", [.number ⟨0xBFF0000000000000, 0⟩], [.variable "a"], []⟩,
+           ⟨"CNOT", [], [.variable "a", .variable "b"], []⟩]⟩⟩]).listing = .ok ts ∧
+    ∃ is', parseProgram ts = .ok is' [] :=
+  let ⟨ts, h1, h2⟩ := C04_roundtrip_api_partial stdFmt _ (by decide) (by decide) (by decide) (by decide)
+  ⟨ts, h1, _, h2⟩
 
 end QV.C04
